@@ -187,3 +187,87 @@ pub fn honest_cases(p: &'static Params, skc: &SkCtx, pkb: &Arc<Vec<u8>>, mode: M
     }
     out
 }
+
+
+/// D3b: search small response vectors z until w = A z has a coefficient in each UseHint corner class, then place ONE
+/// hint bit on that coefficient (c_tilde computed for that hint), plus the same signature without the bit.
+/// pseudo-random small response vector number `salt` (coefficients in [-100, 100])
+pub fn small_z_prng(p: &Params, salt: i32) -> Vec<Poly> {
+    let bytes = refmodel::shake256(&[b"small-z", &salt.to_le_bytes()], p.l * 256);
+    (0..p.l).map(|j| core::array::from_fn(|i| i32::from(bytes[j * 256 + i]) % 201 - 100)).collect()
+}
+
+pub fn usehint_corner_cases(p: &'static Params, pk0: &PkCtx, pkb: &Arc<Vec<u8>>, max_z: i32) -> Vec<VCase> {
+    let m = (refmodel::Q - 1) / (2 * p.gamma2);
+    let classes: Vec<(&str, Box<dyn Fn(i64, i64) -> bool>)> = vec![
+        ("r0=0", Box::new(|_r1, r0| r0 == 0)),
+        ("r0=1", Box::new(|_r1, r0| r0 == 1)),
+        ("r0=-1", Box::new(|_r1, r0| r0 == -1)),
+        ("r0=gamma2", Box::new(move |_r1, r0| r0 == p.gamma2)),
+        ("r0=-gamma2+1", Box::new(move |_r1, r0| r0 == -p.gamma2 + 1)),
+        ("r1=0,r0<=0(wrap to m-1)", Box::new(|r1, r0| r1 == 0 && r0 <= 0)),
+        ("r1=m-1,r0>0(wrap to 0)", Box::new(move |r1, r0| r1 == m - 1 && r0 > 0)),
+        ("decompose-corner(r0 decremented)", Box::new(move |r1, r0| r1 == 0 && r0 < -p.gamma2 + 1)),
+    ];
+    let mut found: Vec<Option<(i32, usize, usize)>> = vec![None; classes.len()];
+    let mut salt = 0;
+    while salt < max_z && found.iter().any(|f| f.is_none()) {
+        use rayon::prelude::*;
+        let ws: Vec<(i32, Vec<Poly>)> = (salt..salt + 64).into_par_iter().map(|s| (s, refmodel::az_of(pk0, &small_z_prng(p, s)))).collect();
+        for (sl, w) in ws {
+            for (k, poly) in w.iter().enumerate() {
+                for (n, &c) in poly.iter().enumerate() {
+                    let (r1, r0) = refmodel::decompose(p.gamma2, i64::from(c));
+                    for (ci, (_, f)) in classes.iter().enumerate() {
+                        if found[ci].is_none() && f(r1, r0) {
+                            found[ci] = Some((sl, k, n));
+                        }
+                    }
+                }
+            }
+        }
+        salt += 64;
+    }
+    let mp = format_message(Mode::Pure, b"use-hint-corner", b"").unwrap();
+    let mut out = Vec::new();
+    for ((name, _), f) in classes.iter().zip(found) {
+        let Some((salt, k, n)) = f else { continue };
+        let z = small_z_prng(p, salt);
+        let mut h = vec![POLY0; p.k];
+        h[k][n] = 1;
+        let y = refmodel::hint_bit_pack(p.k, p.omega, &h);
+        let sig = refmodel::forge_zero_t1(pk0, &mp, &z, &h, &y);
+        out.push(VCase { class: format!("D3b:hint-bit-on:{name}"), pk: pkb.clone(), mode: Mode::Pure, msg: b"use-hint-corner".to_vec(), ctx: vec![], sig, intent: Some(true) });
+        // the same hint section with c_tilde computed for NO hint: must be rejected unless UseHint is the identity there
+        let sig2 = refmodel::forge_zero_t1(pk0, &mp, &z, &vec![POLY0; p.k], &y);
+        out.push(VCase { class: format!("D3b:hint-bit-ignored-commitment:{name}"), pk: pkb.clone(), mode: Mode::Pure, msg: b"use-hint-corner".to_vec(), ctx: vec![], sig: sig2, intent: Some(false) });
+    }
+    out
+}
+
+/// D7b: response vectors supported on {0, 128, 64, ..., 1} whose coefficients are chosen (complete enumeration per
+/// layer, guided by the textbook transform) to push NTT output slot 0 to its extreme; valid signatures under the zero-t1 key
+pub fn butterfly_cases(p: &'static Params, pk0: &PkCtx, pkb: &Arc<Vec<u8>>) -> Vec<VCase> {
+    let g = p.gamma1 - p.beta - 1;
+    let zt = refmodel::zetas();
+    let mut out = Vec::new();
+    for sign in [1i64, -1] {
+        let mut w = POLY0;
+        for l in 0..8 {
+            let len = 128usize >> l;
+            let zeta = zt[1 << l];
+            // maximise the centred representative of zeta * v
+            let best = (-g..=g).max_by_key(|&v| refmodel::mod_pm(zeta * v, refmodel::Q) * sign).unwrap();
+            w[len] = best as i32;
+        }
+        w[0] = (sign * g) as i32;
+        for poly in [0, p.l - 1] {
+            let mut z = vec![POLY0; p.l];
+            z[poly] = w;
+            let mp = format_message(Mode::Pure, b"butterfly", b"").unwrap();
+            let sig = refmodel::forge_zero_t1(pk0, &mp, &z, &vec![POLY0; p.k], &empty_hint_section(p));
+            out.push(VCase { class: format!("D7b:butterfly-path:sign{sign}:poly{poly}"), pk: pkb.clone(), mode: Mode::Pure, msg: b"butterfly".to_vec(), ctx: vec![], sig, intent: Some(true) });
+        }
+    }
+    out
+}
